@@ -1,7 +1,7 @@
 (** C04 — non-vacuity of the Gauss-Jordan theorems: a literal copy of today's program is accepted by [gj_prog_ok], and the
     interpreter over the reals returns on the identity matrix (so the hypothesis [gj_inverse Rnum p m = GOk n] is satisfiable). *)
 From Coq Require Import Reals Lra List Bool Arith QArith Qreals.
-From SV Require Import Rot.RotBase Gen.RotFormulas_gen Rot.RotAlgebra Rot.RotGJ Rot.RotGJProofs.
+From SV Require Import Rot.RotBase Gen.RotFormulas_gen Rot.RotAlgebra Rot.RotGJ Rot.RotGJProofs Rot.RotGJTotal.
 Import ListNotations.
 Local Open Scope R_scope.
 
@@ -56,3 +56,7 @@ Proof.
   rewrite op_piv0, op_e1, op_e2, op_piv1, op_e3, op_e4, op_e5, op_e6, op_s0, op_s1, op_s2.
   unfold gj_II; cbn [snd]. unfold out_of, rows_of, I3; cbn. reflexivity.
 Qed.
+
+(** Non-vacuity of the totality theorems (Rot/RotGJTotalProofs.v): the same program is accepted by [gj_total_ok]. *)
+Example gj_ref_total : gj_total_ok gj_ref_prog = true /\ rotation I3.
+Proof. split; [vm_compute; reflexivity | unfold rotation, orthonormal, det, I3; cbn; repeat split; lra]. Qed.
